@@ -69,7 +69,7 @@ class Chan:
             return ans
         if act == "raise":
             exc = {"OSError": OSError, "PermissionError": PermissionError,
-                   "RuntimeError": RuntimeError}[ans.get("exc", "OSError")]
+                   "RuntimeError": RuntimeError, "ImportError": ImportError}[ans.get("exc", "OSError")]
             if issubclass(exc, OSError):
                 raise exc(ans.get("errno", _errno.EIO), os.strerror(ans.get("errno", _errno.EIO)),
                           info.get("path"))
